@@ -1075,6 +1075,14 @@ class Compiler:
       if k is py:
         return self.lift(v)
     import threading
+    if py is threading.get_ident:
+      return SI(lambda comp, a, k: SK(comp.tid + 1, comp.tid + 1), "get_ident")
+    if py is threading.current_thread:
+      # threads are told apart by ident and (unless a scenario says otherwise) by name
+      def current_thread(comp, a, k):
+        nm = "thread-%d" % comp.tid
+        return SNs({"name": SK(comp.sc.strings.code(nm), nm), "ident": SK(comp.tid + 1, comp.tid + 1)}, "thread")
+      return SI(current_thread, "current_thread")
     if isinstance(py, (type(threading.RLock()), type(threading.Lock()))):
       # a module-level lock: one model per lock object, named after the global
       fr = self.frames[-1]
